@@ -2087,6 +2087,17 @@ pub fn gen_c18(rng: &mut Rng, d: &mut Dist, _idx: u64) -> Vec<String> {
                 bytes += bs.len();
                 out.push(format!("APPENDRAW {} {} {} {} {}", h(&t.name), p, f, l, hex(&bs)));
             }
+            // now and then a log large enough for replies beyond the network layer's first buffer (64 KiB)
+            if rng.chance(1, 40) {
+                bump(d, "log-over-64KiB");
+                for _ in 0..(70 + rng.below(40)) {
+                    let v = rng.rbytes(900, 400);
+                    let m = raw_msg(off, 0, None, Some(&v), 0);
+                    bytes += m.len();
+                    out.push(format!("APPENDRAW {} {} {} {} {}", h(&t.name), p, off, off, hex(&m)));
+                    off += 1;
+                }
+            }
             ends.push((t.name.clone(), p, off, bytes));
         }
     }
